@@ -24,6 +24,7 @@ LEVEL_TEXT = ('Bounded-exhaustive exploration of the real Cell/Builder/Slice/BoC
 LEVEL_NOTE = ('trusted: mc/ref/cell.py (pinned to the empty-cell hash and the main-net block root hash); contents of long bit strings are '
               'covered by 6 representatives per length (the hash input is data-oblivious apart from the completion tag)')
 TECHNIQUE = 'small-scope exhaustive enumeration of cell shapes and construction routes against a reference model'
+RULE += " Depth limit: the 1023-deep chain is also taken through to_boc/one_from_boc (plain and with all options), copy(), begin_parse().to_cell(), to_builder().end_cell() and the explicit representation hash with the library calls running under the interpreter's DEFAULT recursion limit."
 ASSUMPTIONS = ['SHA-256 from hashlib is trusted', 'long bit-string contents by representatives (all lengths complete)']
 NOT_ASSERTED = []
 
